@@ -142,6 +142,10 @@ def error_class_reaches_the_caller(ctx, rep, rule: str) -> None:
     rep.ob(rule, "error-class-reaches-the-caller:handlers-on-the-way-up", True, "", f"{len(reach)} function(s) can reach a `raise PreconditionerValueError`; {n} handler(s) on the way up could catch it", nontrivial=False)
 
 
+def idx_name(x) -> str:
+    return str(x)
+
+
 def run(ctx, rep) -> None:
     repo = ctx.repo
     pts = ctx.engine("pts")
@@ -232,6 +236,14 @@ def run(ctx, rep) -> None:
                     # which tracker and which index reach the counter is decided on caller and callee together (C13.3)
                     ok_scope = enum_idx is not None
                     judged.append((fi, jc, tracker, enum_idx))
+                    if enum_idx is not None and outer.iter.args:
+                        # the index handed to the tolerance routine is a position in the *masked* lists (it is mapped through
+                        # the masked->local table): the enumerated iterable must yield one element per masked block, so no
+                        # filter / slice / compress may sit between the masked lists and enumerate
+                        src = ast.parse(A.expanded(fi.node, outer.iter.args[0]), mode="eval").body
+                        thin = [n for n in ast.walk(src) if (isinstance(n, ast.comprehension) and n.ifs) or (isinstance(n, ast.Call) and ast.unparse(n.func).split(".")[-1] in ("filter", "compress", "compress_list", "islice", "takewhile", "dropwhile", "filterfalse")) or (isinstance(n, ast.Subscript) and isinstance(n.slice, ast.Slice))]
+                        start = [k for k in outer.iter.keywords if k.arg == "start"] or outer.iter.args[1:]
+                        rep.ob("C13.3", f"{ci.name}:enumerate-index-spans-the-masked-lists", not thin and not start, fi.loc(outer), f"`{idx_name(enum_idx)}` is used as a position in the masked lists; enumerate runs over `{ast.unparse(outer.iter.args[0])[:120]}`" + (" which filters / slices / offsets its elements, so positions shift whenever an element is dropped" if thin or start else ""), sample=True)
                 detail = f"tracker `{tracker}` created once per block before the factor loop, judged once per block after it: {ok_scope}"
             rep.ob("C13.1", f"{ci.name}:tracker-per-block", ok_scope, fi.loc(tr), detail, sample=True)
             # ---- C13.2 finiteness check dominates the copy, on the same value, outside the try
